@@ -1,8 +1,151 @@
-(* C20 -- property theorems only. *)
+(* C20 -- property theorems only.  Each is closed by `exact <lemma>` (or a two-line
+   instantiation of a witness lemma). *)
 From Coq Require Import ZArith Bool List.
 From SV Require Import Common.GoInt C20.Model C20.Spec C20.Proofs.
 Import ListNotations.
 Open Scope Z_scope.
 
-Theorem placeholder_wrap : forall z, in_uint32 z = true -> wrapu32 z = z.
-Proof. exact wrapu32_id. Qed.
+(* toProto followed by toStarlark1 is the range-based specification, for all 16 kinds
+   and all Starlark values (i2f, f32: the int->float64 and float64->float32 oracles) *)
+Theorem conversion_exact :
+  forall i2f f32 k v,
+    match to_proto i2f f32 k v with
+    | Stored p => denote i2f f32 k v = Some (to_starlark p)
+    | Rejected => denote i2f f32 k v = None
+    | HostPanic => False
+    end.
+Proof. exact to_proto_denote. Qed.
+
+(* every kind x position (singular, constructor keyword, repeated append / index /
+   whole-list, map value / whole-map / key) x value: the stored value reads back as
+   specified, or the store is rejected with the field unchanged (a rejected whole-map
+   assignment has cleared the field); never a host panic *)
+Theorem scalar_store_exact :
+  forall i2f f32 k pos before val,
+    match expected i2f f32 k pos before val with
+    | Some e => store_at i2f f32 k pos before val = (SOk, e)
+    | None => store_at i2f f32 k pos before val = (SErr, match pos with PMapAssign _ => CM [] | _ => before end)
+    end.
+Proof. exact store_at_exact. Qed.
+
+(* no store attempt, of any value at any position of any kind, ends in a host panic
+   (on the repaired tree; History.v keeps the bytes -> string panic of the old toProto) *)
+Theorem no_host_panic :
+  forall i2f f32 k pos before val, fst (store_at i2f f32 k pos before val) <> SPanic.
+Proof. exact store_never_panics. Qed.
+
+(* all signed and unsigned 32/64-bit integers: exact inside the range, rejected outside *)
+Theorem integers_exact :
+  forall i2f f32 k lo hi z, int_range k = Some (lo, hi) ->
+    (lo <= z <= hi -> exists p, to_proto i2f f32 k (SInt z) = Stored p /\ to_starlark p = SInt z) /\
+    (~ (lo <= z <= hi) -> to_proto i2f f32 k (SInt z) = Rejected).
+Proof. exact integers_exact_lemma. Qed.
+
+(* after ANY sequence of operations every int64 field / element / map value is in
+   range and every reference (sub-message, list, map, list element, map value,
+   variable) points to an object of the declared sort *)
+Theorem typed_invariant :
+  forall ops st, wf st -> wf (snd (run st ops)).
+Proof. exact run_wf. Qed.
+
+Theorem typed_invariant_from_start :
+  forall n ops, wf (snd (run (init n) ops)).
+Proof. intros n ops. exact (run_wf ops (init n) (init_wf n)). Qed.
+
+(* every mutator through a wrapper whose (shared) flag is set fails and changes nothing *)
+Theorem frozen_blocks_mutation :
+  forall st o i w, target o = Some i -> var st i = Some w -> flag st (w_flag w) = true ->
+    snd (step st o) = st /\ fst (step st o) <> ROk.
+Proof. exact frozen_blocks_lemma. Qed.
+
+(* a wrapper obtained from a frozen message by x.sub, x.rm[k], x.mm[key] is frozen
+   (it shares the flag, or is the detached frozen default), hence blocks mutation too *)
+Theorem derived_wrappers_frozen :
+  forall st g i j wj st',
+    (g = GetSub i j \/ (exists k, g = GetRM i j k) \/ (exists key, g = GetMM i j key)) ->
+    var st j = Some wj -> flag st (w_flag wj) = true -> step st g = (ROk, st') ->
+    exists wi, var st' i = Some wi /\ flag st' (w_flag wi) = true.
+Proof. exact derived_frozen_lemma. Qed.
+
+(* FULL statement of freeze soundness ("once frozen, no operation through any wrapper
+   changes the content reachable from the message"):
+
+     forall n ops1 i ops2 f, (no operation of ops2 re-binds x_i) ->
+       let st1 := snd (run (init n) (ops1 ++ [Freeze i])) in
+       dump_var (S f) (snd (run st1 ops2)) i = dump_var (S f) st1 i.
+
+   The faithful model of the code FALSIFIES it; the witnesses below are replayed on the
+   real implementation by bin/check C20 (known findings freeze:via-copy, freeze:via-alias). *)
+Definition freeze_sound_statement : Prop :=
+  forall n ops1 i ops2 f,
+    forallb (fun o => negb (rebinds i o)) ops2 = true ->
+    let st1 := snd (run (init n) (ops1 ++ [Freeze i])) in
+    dump_var (S f) (snd (run st1 ops2)) i = dump_var (S f) st1 i.
+
+(* c = Node(m) shares m's sub-message (and list / map objects) under a fresh flag *)
+Theorem freeze_shallow_copy_refuted :
+  exists ops1 i ops2,
+    forallb (fun o => negb (rebinds i o)) ops2 = true /\
+    existsb (fun o => match o with SetSub _ _ => true | _ => false end) ops2 = false /\
+    let st1 := snd (run (init 4) (ops1 ++ [Freeze i])) in
+    fst (run st1 ops2) = [ROk; ROk] /\
+    dump_var 60 (snd (run st1 ops2)) i <> dump_var 60 st1 i.
+Proof.
+  exists [New 0; New 1; SetV 1 (SInt 1); SetSub 0 1; Copy 2 0], 0%nat, copy_suffix.
+  vm_compute. repeat split; discriminate.
+Qed.
+
+(* o.sub = m.sub stores m's sub-message object itself, under o's flag (no copy involved) *)
+Theorem freeze_alias_refuted :
+  exists ops1 i ops2,
+    forallb (fun o => negb (rebinds i o)) ops2 = true /\
+    existsb (fun o => match o with Copy _ _ => true | _ => false end) (ops1 ++ ops2) = false /\
+    let st1 := snd (run (init 4) (ops1 ++ [Freeze i])) in
+    fst (run st1 ops2) = [ROk; ROk] /\
+    dump_var 60 (snd (run st1 ops2)) i <> dump_var 60 st1 i.
+Proof.
+  exists [New 0; New 1; SetV 1 (SInt 1); SetSub 0 1; New 2; GetSub 3 0; SetSub 2 3], 0%nat, alias_suffix.
+  vm_compute. repeat split; discriminate.
+Qed.
+
+Theorem freeze_sound_refuted : ~ freeze_sound_statement.
+Proof.
+  intro H. specialize (H 4%nat [New 0; New 1; SetV 1 (SInt 1); SetSub 0 1; Copy 2 0] 0%nat copy_suffix 59%nat eq_refl).
+  vm_compute in H. discriminate.
+Qed.
+
+(* what does hold: for histories without copy and message-aliasing operations
+   (boolean guard `simple` on every operation) freezing is sound *)
+Theorem freeze_sound_partial :
+  forall n ops1 i ops2 f,
+    forallb simple (ops1 ++ Freeze i :: ops2) = true ->
+    forallb (fun o => negb (rebinds i o)) ops2 = true ->
+    let st1 := snd (run (init n) (ops1 ++ [Freeze i])) in
+    dump_var (S f) (snd (run st1 ops2)) i = dump_var (S f) st1 i.
+Proof. exact freeze_sound_partial_lemma. Qed.
+
+(* ---- non-vacuity ---- *)
+Definition zf (z : Z) : Z := 0.
+
+Example scalar_premises_hold :
+  expected zf zf KUint32 PAppend (CL [SInt 7]) (SInt 4294967295) = Some (CL [SInt 7; SInt 4294967295]) /\
+  expected zf zf KUint32 PAppend (CL [SInt 7]) (SInt 4294967296) = None /\
+  expected zf zf KInt64 (PMapKey KString (SInt 7)) (CM [(SStr [112], SInt 1)]) (SBytes [97]) = Some (CM [(SStr [97], SInt 7); (SStr [112], SInt 1)]) /\
+  int_range KSint64 = Some (-9223372036854775808, 9223372036854775807) /\
+  to_proto zf zf KString (SBytes [97; 98]) = Stored (PStr [97; 98]).
+Proof. vm_compute. repeat split. Qed.
+
+Definition ex_prefix : list op :=
+  [New 0; New 1; AssignRIList 0 [SInt 1; SInt 2]; AssignMIDict 0 [97] (SInt 5); SetV 0 (SInt 9); AssignRI 1 0].
+Definition ex_suffix : list op :=
+  [SetV 0 (SInt 1); AppendRI 0 (SInt 3); AppendRI 1 (SInt 3); SetMI 0 [97] (SInt 6); AssignRI 0 1; GetSub 2 0; SetV 2 (SInt 4); SetV 1 (SInt 8)].
+
+Example freeze_premises_hold :
+  forallb simple (ex_prefix ++ Freeze 0 :: ex_suffix) = true /\
+  forallb (fun o => negb (rebinds 0 o)) ex_suffix = true /\
+  let st1 := snd (run (init 4) (ex_prefix ++ [Freeze 0])) in
+  dump_var 5 st1 0 = Some (D 9 [] None [1; 2] [] [([97], 5)] []) /\
+  fst (run st1 ex_suffix) = [RErr; RErr; ROk; RErr; RErr; ROk; RErr; ROk] /\
+  dump_var 5 (snd (run st1 ex_suffix)) 1 = Some (D 8 [] None [1; 2; 3] [] [] []) /\
+  var st1 0 <> None /\ flag st1 0 = true /\ target (SetV 0 (SInt 1)) = Some 0%nat.
+Proof. vm_compute. repeat split; discriminate. Qed.
